@@ -5,12 +5,16 @@ package main
 // Model: lean/EchoModel/C11.lean (serve).
 
 import (
+	"encoding/base64"
+	"encoding/json"
+	"errors"
 	"fmt"
 	"math/rand"
 	"net/http"
 	"net/http/httptest"
 	"sort"
 	"strings"
+	"unicode/utf8"
 
 	"github.com/labstack/echo/v4"
 	"github.com/labstack/echo/v4/middleware"
@@ -23,6 +27,126 @@ type c11Case struct {
 	Method string   `json:"method"`
 	Origin []string `json:"origin"` // Origin header values (usually one)
 	Note   string   `json:"note,omitempty"`
+
+	// round 4: the rest of the public surface
+	Ctor    int      `json:"ctor,omitempty"`    // 1 = middleware.CORS() (every option of the case is then ignored)
+	Skipper int      `json:"skipper,omitempty"` // 1 = custom Skipper: skips exactly the requests carrying X-Verif-Skip
+	Skip    bool     `json:"skip,omitempty"`    // the request carries that header
+	Func    *c11Func `json:"func,omitempty"`    // AllowOriginFunc (AllowOrigins is then ignored by the middleware)
+	Methods []string `json:"methods,omitempty"` // AllowMethods
+	Headers []string `json:"headers,omitempty"` // AllowHeaders
+	Expose  []string `json:"expose,omitempty"`  // ExposeHeaders
+	MaxAge  int      `json:"max_age,omitempty"`
+	// methods registered for "/" (nil: all of them, e.Any); when OPTIONS is missing the router puts its Allow
+	// value into the context.  The request's own method is always registered when the handler can be reached.
+	Routes []string `json:"routes,omitempty"`
+	// what a middleware in front of CORS does with the context key echo.ContextKeyHeaderAllow:
+	// 0 leaves the router's value, 1 sets the string CtxAllow, 2 sets a value that is not a string
+	CtxKind    int      `json:"ctx_kind,omitempty"`
+	CtxAllow   string   `json:"ctx_allow,omitempty"`
+	ReqHeaders []string `json:"req_headers,omitempty"` // Access-Control-Request-Headers values
+	Pre        bool     `json:"pre,omitempty"`         // installed with e.Pre instead of e.Use
+	Before     []string `json:"before,omitempty"`      // Origins of requests served through the same instance first
+}
+
+// AllowOriginFunc as a table: error (status Code; 500 = a plain error) for the origins in Err, true for those in
+// Allow, false otherwise
+type c11Func struct {
+	Allow   []string `json:"allow,omitempty"`
+	Err     []string `json:"err,omitempty"`
+	Code    int      `json:"code,omitempty"`
+	ErrTrue bool     `json:"err_true,omitempty"` // an erroring function returns (true, err) instead of (false, err)
+}
+
+// 1 allow, 2 deny, >= 100 error answered with that status
+func (f *c11Func) class(origin string) int {
+	for _, o := range f.Err {
+		if o == origin {
+			if f.Code < 100 {
+				return 500
+			}
+			return f.Code
+		}
+	}
+	for _, o := range f.Allow {
+		if o == origin {
+			return 1
+		}
+	}
+	return 2
+}
+
+// Strings of a case may hold bytes that are not UTF-8 (entries that do not compile, origins copied from them).
+// encoding/json would replace those by U+FFFD, so such a string travels as marker + base64 and replays stay exact.
+const a3BinMarker = "\x00b64:"
+
+func a3EncStr(s string) string {
+	if utf8.ValidString(s) && !strings.HasPrefix(s, a3BinMarker) {
+		return s
+	}
+	return a3BinMarker + base64.StdEncoding.EncodeToString([]byte(s))
+}
+
+func a3DecStr(s string) string {
+	if strings.HasPrefix(s, a3BinMarker) {
+		if b, err := base64.StdEncoding.DecodeString(s[len(a3BinMarker):]); err == nil {
+			return string(b)
+		}
+	}
+	return s
+}
+
+func a3MapStrs(l []string, f func(string) string) []string {
+	if l == nil {
+		return nil
+	}
+	out := make([]string, len(l))
+	for i, s := range l {
+		out[i] = f(s)
+	}
+	return out
+}
+
+type c11Alias c11Case
+
+func (c *c11Case) mapStrings(f func(string) string) c11Alias {
+	a := c11Alias(*c)
+	a.Allow, a.Origin, a.Before = a3MapStrs(c.Allow, f), a3MapStrs(c.Origin, f), a3MapStrs(c.Before, f)
+	a.ReqHeaders, a.CtxAllow = a3MapStrs(c.ReqHeaders, f), f(c.CtxAllow)
+	if c.Func != nil {
+		fn := *c.Func
+		fn.Allow, fn.Err = a3MapStrs(c.Func.Allow, f), a3MapStrs(c.Func.Err, f)
+		a.Func = &fn
+	}
+	return a
+}
+
+func (c c11Case) MarshalJSON() ([]byte, error) {
+	a := c.mapStrings(a3EncStr)
+	return json.Marshal(&a)
+}
+
+func (c *c11Case) UnmarshalJSON(data []byte) error {
+	var a c11Alias
+	if err := json.Unmarshal(data, &a); err != nil {
+		return err
+	}
+	d := c11Case(a)
+	*c = c11Case(d.mapStrings(a3DecStr))
+	return nil
+}
+
+const c11SkipHeader = "X-Verif-Skip"
+
+var errC11Func = errors.New("origin backend failed")
+
+func c11Norm(c *c11Case) *c11Case {
+	d := *c
+	if d.Ctor == 1 {
+		d.Allow, d.Creds, d.Unsafe, d.Func, d.Skipper = nil, false, false, nil, 0
+		d.Methods, d.Headers, d.Expose, d.MaxAge = nil, nil, nil, 0
+	}
+	return &d
 }
 
 // c11Glob: `*` = any run of bytes (also empty), `?` = exactly one byte, every other byte itself, whole
@@ -89,28 +213,131 @@ func c11Allowed(allow []string, origin string) bool {
 	return false
 }
 
+func c11Has(l []string, x string) bool {
+	for _, y := range l {
+		if y == x {
+			return true
+		}
+	}
+	return false
+}
+
 func c11Run(ci any) (res Result) {
-	c := ci.(*c11Case)
+	c := c11Norm(ci.(*c11Case))
 	ran := false
+	var fcalls []string
+	routerAllow := ""
+	skipped := c.Skipper == 1 && c.Skip
+	preflight := c.Method == http.MethodOptions
+	origin := ""
+	if len(c.Origin) > 0 {
+		origin = c.Origin[0]
+	}
+	fclass := 0
+	if c.Func != nil {
+		fclass = c.Func.class(origin)
+	}
+
 	e := echo.New()
-	e.Use(middleware.CORSWithConfig(middleware.CORSConfig{
-		AllowOrigins:                             c.Allow,
-		AllowCredentials:                         c.Creds,
-		UnsafeWildcardOriginWithAllowCredentials: c.Unsafe,
-	}))
-	e.Any("/", func(ctx echo.Context) error {
+	var mw echo.MiddlewareFunc
+	if c.Ctor == 1 {
+		mw = middleware.CORS()
+	} else {
+		cfg := middleware.CORSConfig{
+			AllowOrigins:                             c.Allow,
+			AllowCredentials:                         c.Creds,
+			UnsafeWildcardOriginWithAllowCredentials: c.Unsafe,
+			AllowMethods:                             c.Methods,
+			AllowHeaders:                             c.Headers,
+			ExposeHeaders:                            c.Expose,
+			MaxAge:                                   c.MaxAge,
+		}
+		if c.Skipper == 1 {
+			cfg.Skipper = func(ctx echo.Context) bool { return ctx.Request().Header.Get(c11SkipHeader) != "" }
+		}
+		if c.Func != nil {
+			f := c.Func
+			cfg.AllowOriginFunc = func(o string) (bool, error) {
+				fcalls = append(fcalls, o)
+				switch k := f.class(o); {
+				case k == 1:
+					return true, nil
+				case k == 2:
+					return false, nil
+				case k == 500:
+					return f.ErrTrue, errC11Func
+				default:
+					return f.ErrTrue, echo.NewHTTPError(k)
+				}
+			}
+		}
+		mw = middleware.CORSWithConfig(cfg)
+	}
+	// in front of CORS: what the middleware will find under echo.ContextKeyHeaderAllow
+	probe := func(next echo.HandlerFunc) echo.HandlerFunc {
+		return func(ctx echo.Context) error {
+			switch c.CtxKind {
+			case 1:
+				ctx.Set(echo.ContextKeyHeaderAllow, c.CtxAllow)
+			case 2:
+				ctx.Set(echo.ContextKeyHeaderAllow, 42)
+			}
+			routerAllow = ""
+			if v, ok := ctx.Get(echo.ContextKeyHeaderAllow).(string); ok {
+				routerAllow = v
+			}
+			return next(ctx)
+		}
+	}
+	if c.Pre {
+		e.Pre(probe, mw)
+	} else {
+		e.Use(probe, mw)
+	}
+	h := func(ctx echo.Context) error {
 		ran = true
 		return ctx.NoContent(http.StatusOK)
-	})
-	req := httptest.NewRequest(c.Method, "/", nil)
-	for _, o := range c.Origin {
-		req.Header["Origin"] = append(req.Header["Origin"], o)
+	}
+	if c.Routes == nil {
+		e.Any("/", h)
+	} else {
+		routes := append([]string(nil), c.Routes...)
+		before := []string{http.MethodGet, http.MethodOptions}
+		need := []string{}
+		if !preflight || skipped {
+			need = append(need, c.Method)
+		}
+		if len(c.Before) > 0 {
+			need = append(need, before[0])
+		}
+		for _, m := range need {
+			if !c11Has(routes, m) {
+				routes = append(routes, m)
+			}
+		}
+		done := map[string]bool{}
+		for _, m := range routes {
+			if !done[m] {
+				done[m] = true
+				e.Add(m, "/", h)
+			}
+		}
+	}
+	mkReq := func(method string, origins []string) *http.Request {
+		req := httptest.NewRequest(method, "/", nil)
+		for _, o := range origins {
+			req.Header["Origin"] = append(req.Header["Origin"], o)
+		}
+		return req
+	}
+	req := mkReq(c.Method, c.Origin)
+	for _, v := range c.ReqHeaders {
+		req.Header["Access-Control-Request-Headers"] = append(req.Header["Access-Control-Request-Headers"], v)
+	}
+	if c.Skip {
+		req.Header.Set(c11SkipHeader, "1")
 	}
 	rec := httptest.NewRecorder()
-	preflight := c.Method == http.MethodOptions
-
-	ops := []string{wBool(c.Creds), wBool(c.Unsafe), wStrs(c.Allow), wBool(preflight), wStrs(c.Origin)}
-	res.Ops = strings.Join(ops, " ")
 
 	panicked := func() (p bool) {
 		defer func() {
@@ -119,24 +346,56 @@ func c11Run(ci any) (res Result) {
 				res.Oracle = fmt.Sprintf("CORS panicked: %v", r)
 			}
 		}()
+		// requests served through the same instance first: nothing of them may carry over
+		for i, o := range c.Before {
+			m := http.MethodGet
+			if i%2 == 1 {
+				m = http.MethodOptions
+			}
+			e.ServeHTTP(httptest.NewRecorder(), mkReq(m, []string{o}))
+		}
+		ran, fcalls, routerAllow = false, nil, ""
 		e.ServeHTTP(rec, req)
 		return false
 	}()
+
+	fn := 0
+	if c.Func != nil {
+		fn = fclass
+	}
+	reqHdr := ""
+	if len(c.ReqHeaders) > 0 {
+		reqHdr = c.ReqHeaders[0]
+	}
+	ops := []string{wInt(c.Ctor), wBool(skipped), wBool(c.Creds), wBool(c.Unsafe), wStrs(c.Allow), wInt(fn),
+		wStrs(c.Methods), wStrs(c.Headers), wStrs(c.Expose), wInt(c.MaxAge), wBool(preflight), wStrs(c.Origin),
+		wStr(routerAllow), wStr(reqHdr)}
+	res.Ops = strings.Join(ops, " ")
 	if panicked {
 		res.Obs = "panic"
 		return res
 	}
-	h := rec.Header()
-	acao, hasACAO := h["Access-Control-Allow-Origin"]
-	acac := h.Get("Access-Control-Allow-Credentials")
-	vary := h.Values("Vary")
+	hd := rec.Header()
+	acao, hasACAO := hd["Access-Control-Allow-Origin"]
+	hasACAO = hasACAO && len(acao) > 0
+	acac := hd.Get("Access-Control-Allow-Credentials")
+	_, hasACAC := hd["Access-Control-Allow-Credentials"]
+	vary := hd.Values("Vary")
 	obs := []string{wInt(rec.Code), wBool(ran)}
-	if hasACAO && len(acao) > 0 {
+	if hasACAO {
 		obs = append(obs, "1", wStr(acao[0]))
 	} else {
 		obs = append(obs, "0")
 	}
-	obs = append(obs, wBool(acac != ""), wStrs(vary))
+	obs = append(obs, wBool(hasACAC), wStrs(vary))
+	for _, k := range []string{"Allow", "Access-Control-Allow-Methods", "Access-Control-Allow-Headers", "Access-Control-Expose-Headers", "Access-Control-Max-Age"} {
+		if v, ok := hd[k]; ok && len(v) > 0 {
+			obs = append(obs, "1", wStr(v[0]))
+			res.Tags = append(res.Tags, "hdr:"+k)
+		} else {
+			obs = append(obs, "0")
+		}
+	}
 	res.Obs = strings.Join(obs, " ")
 
 	// ---- model-free oracle: the property itself
@@ -144,10 +403,6 @@ func c11Run(ci any) (res Result) {
 		if res.Oracle == "" {
 			res.Oracle = s
 		}
-	}
-	origin := ""
-	if len(c.Origin) > 0 {
-		origin = c.Origin[0]
 	}
 	valid := c11ValidOrigin(origin)
 	shaped := true
@@ -160,16 +415,51 @@ func c11Run(ci any) (res Result) {
 	if len(acao) > 1 {
 		fail(fmt.Sprintf("%d Access-Control-Allow-Origin values", len(acao)))
 	}
-	if hasACAO && len(acao) > 0 {
-		v := acao[0]
-		if v != "*" && v != origin {
-			fail(fmt.Sprintf("Access-Control-Allow-Origin %q is neither * nor the request's Origin %q", v, origin))
+	switch {
+	case skipped:
+		// the configured Skipper takes the request out of the middleware
+		if !ran {
+			fail(fmt.Sprintf("the configured Skipper skips this request, but the handler did not run (status %d)", rec.Code))
 		}
-		if valid && shaped && !allowed {
-			fail(fmt.Sprintf("Access-Control-Allow-Origin %q emitted for origin %q, which no entry of %q allows (equality, *, or */? pattern over the whole origin)", v, origin, c.Allow))
+		if hasACAO || hasACAC {
+			fail("CORS grant headers on a request the configured Skipper skips")
+		}
+	case c.Func != nil:
+		// AllowOriginFunc decides: it is asked about the Origin verbatim, and only its yes grants access
+		for _, o := range fcalls {
+			if o != origin {
+				fail(fmt.Sprintf("AllowOriginFunc asked about %q, the request's Origin is %q", o, origin))
+			}
+		}
+		if hasACAO {
+			if fclass != 1 {
+				fail(fmt.Sprintf("Access-Control-Allow-Origin %q although AllowOriginFunc did not allow %q (answer class %d)", acao[0], origin, fclass))
+			}
+			if acao[0] != origin {
+				fail(fmt.Sprintf("Access-Control-Allow-Origin %q is not the Origin %q that AllowOriginFunc allowed", acao[0], origin))
+			}
+			if len(fcalls) == 0 {
+				fail("Access-Control-Allow-Origin granted without asking AllowOriginFunc")
+			}
+		}
+		if origin != "" && fclass != 1 && ran {
+			fail(fmt.Sprintf("request from %q reached the handler although AllowOriginFunc did not allow it (answer class %d)", origin, fclass))
+		}
+	default:
+		if hasACAO {
+			v := acao[0]
+			if v != "*" && v != origin {
+				fail(fmt.Sprintf("Access-Control-Allow-Origin %q is neither * nor the request's Origin %q", v, origin))
+			}
+			if valid && shaped && !allowed {
+				fail(fmt.Sprintf("Access-Control-Allow-Origin %q emitted for origin %q, which no entry of %q allows (equality, *, or */? pattern over the whole origin)", v, origin, c.Allow))
+			}
+		}
+		if !preflight && origin != "" && valid && shaped && !allowed && ran {
+			fail(fmt.Sprintf("non-preflight %s from disallowed origin %q reached the handler (status %d)", c.Method, origin, rec.Code))
 		}
 	}
-	if acac != "" {
+	if hasACAC {
 		if !c.Creds {
 			fail("Access-Control-Allow-Credentials sent although AllowCredentials is off")
 		}
@@ -180,18 +470,17 @@ func c11Run(ci any) (res Result) {
 			fail(fmt.Sprintf("Access-Control-Allow-Credentials: %q", acac))
 		}
 	}
-	if preflight {
-		if rec.Code != http.StatusNoContent || ran {
+	if preflight && !skipped {
+		funcErr := c.Func != nil && origin != "" && fclass >= 100 && rec.Code == fclass
+		if ran || (rec.Code != http.StatusNoContent && !funcErr) {
 			fail(fmt.Sprintf("OPTIONS preflight answered %d, handler ran=%v (expected 204 without the handler)", rec.Code, ran))
-		}
-	} else if origin != "" && valid && shaped && !allowed {
-		if ran {
-			fail(fmt.Sprintf("non-preflight %s from disallowed origin %q reached the handler (status %d)", c.Method, origin, rec.Code))
 		}
 	}
 
 	// ---- tags
 	switch {
+	case skipped:
+		res.Tags = append(res.Tags, "skipped")
 	case origin == "":
 		res.Tags = append(res.Tags, "no-origin")
 	case hasACAO && acao[0] == "*":
@@ -213,16 +502,46 @@ func c11Run(ci any) (res Result) {
 			res.Tags = append(res.Tags, "granted:"+c.Note)
 		}
 	}
-	if acac != "" {
+	if hasACAC {
 		res.Tags = append(res.Tags, "acac")
 	}
-	hasPattern := false
+	if c.Ctor == 1 {
+		res.Tags = append(res.Tags, "ctor-CORS()")
+	}
+	if c.Skipper == 1 {
+		res.Tags = append(res.Tags, "custom-skipper")
+	}
+	if c.Func != nil {
+		res.Tags = append(res.Tags, fmt.Sprintf("origin-func:%d", map[bool]int{true: fclass, false: 100}[fclass < 100]))
+	}
+	if routerAllow != "" && preflight {
+		res.Tags = append(res.Tags, "router-allow")
+	}
+	if c.Pre {
+		res.Tags = append(res.Tags, "pre")
+	}
+	if len(c.Before) > 0 {
+		res.Tags = append(res.Tags, "second-request-through-instance")
+	}
+	if c.Unsafe && !c.Creds {
+		res.Tags = append(res.Tags, "unsafe-flag-without-credentials")
+	}
+	hasPattern, blankOnly := false, len(c.Allow) > 0
 	for _, a := range c.Allow {
 		if a != "*" && strings.ContainsAny(a, "*?") {
 			hasPattern = true
 		}
+		if a != "" {
+			blankOnly = false
+		}
+		if !utf8.ValidString(a) {
+			res.Tags = append(res.Tags, "entry-not-utf8")
+		}
 	}
-	res.Nontrivial = hasPattern && origin != ""
+	if blankOnly {
+		res.Tags = append(res.Tags, "allow-list-of-blanks")
+	}
+	res.Nontrivial = (hasPattern || c.Func != nil) && origin != ""
 	return res
 }
 
@@ -315,7 +634,121 @@ func c11Entry(r *rand.Rand, b c11Parts) string {
 	case 11:
 		return c11Pick(r, []string{"*", "*", "", "null", "https://*", "*://*", "https://*.*", "?", "https://"})
 	}
+	if r.Intn(25) == 0 {
+		// a byte that can never be part of valid UTF-8 inside a label: the entry does not compile as a regexp and
+		// is silently dropped from the patterns, but still takes part in the literal / sub-domain comparisons
+		i := r.Intn(len(p.labels))
+		l := p.labels[i]
+		k := r.Intn(len(l) + 1)
+		p.labels[i] = l[:k] + c11Pick(r, []string{"\xff", "\xfe", "\xf8", "\xc0", "\xc1", "\xff\xfe"}) + l[k:]
+	}
 	return p.String()
+}
+
+// fragments of UTF-8: complete sequences of every length, boundary code points, truncated, overlong, surrogate and
+// out-of-range forms, lone continuation and impossible bytes
+var c11Utf8 = []string{"\xc3\xa9", "\xe2\x82\xac", "\xf0\x9f\x98\x80", "\xc3", "\xa9", "\xe2\x82", "\xed\xa0\x80", "\xc0\x80",
+	"\xf4\x90\x80\x80", "\xf8", "\xff", "a", "-", "\xe0\x80\x80", "\xef\xbf\xbd", "\xf0\x80\x80\x80", "\xed\x9f\xbf", "\xee\x80\x80",
+	"\xf4\x8f\xbf\xbf", "\xdf\xbf", "\xc2\x80", "\xe0\xa0\x80", "\xf0\x90\x80\x80", "\xc1\xbf", "\xf5\x80\x80\x80", "\xf0\x9f\x98", "\x80",
+	"\xe1\x80", "\xf1\x80\x80\x80", "\xf3\xbf\xbf\xbf", "\xec\xbf\xbf", "\xe0\x9f\xbf", "\xf0\x8f\xbf\xbf", "\xf4\x80\x80\x80", "\x7f"}
+
+// c11GenProbe: does an entry compile?  The single entry `x://<bytes>?` and the origin `x://<bytes>z` differ only
+// where the `?` meets an ASCII letter, so the origin is granted exactly when the entry compiled, i.e. when <bytes>
+// is valid UTF-8 (neither literal equality nor matchSubdomain can grant it).
+func c11GenProbe(r *rand.Rand) *c11Case {
+	var b strings.Builder
+	for k := 1 + r.Intn(3); k > 0; k-- {
+		b.WriteString(c11Pick(r, c11Utf8))
+	}
+	host := b.String()
+	c := &c11Case{Allow: []string{"x://" + host + "?"}, Method: c11Pick(r, []string{"GET", "OPTIONS", "POST"}),
+		Origin: []string{"x://" + host + "z"}, Note: "entry-compiles-probe", Creds: r.Intn(3) == 0}
+	if r.Intn(3) == 0 {
+		c.Allow = append(c.Allow, c11Pick(r, []string{"https://a.example.com", "x://other", ""}))
+	}
+	return c
+}
+
+// per allow-list: the rest of the configuration and of the installation
+func c11GenConfig(r *rand.Rand, base *c11Case, allow []string) {
+	if r.Intn(20) == 0 {
+		base.Ctor = 1
+	}
+	if r.Intn(6) == 0 {
+		base.Skipper = 1
+	}
+	if r.Intn(8) == 0 {
+		// AllowOriginFunc over concrete origins: instances of the list's own entries
+		f := &c11Func{Code: c11Pick(r, []int{500, 403, 418, 400, 401}), ErrTrue: r.Intn(2) == 0}
+		for k := 1 + r.Intn(3); k > 0; k-- {
+			o := c11Base(r).String()
+			if len(allow) > 0 && r.Intn(2) == 0 {
+				if x := c11Fill(r, c11Pick(r, allow), false); x != "" {
+					o = x
+				}
+			}
+			if r.Intn(4) == 0 {
+				f.Err = append(f.Err, o)
+			} else {
+				f.Allow = append(f.Allow, o)
+			}
+		}
+		base.Func = f
+	}
+	switch r.Intn(6) {
+	case 0:
+		base.Methods = c11Pick(r, [][]string{{"GET"}, {"GET", "POST"}, {""}, {"PUT", "DELETE", "PATCH"}, {"get"}})
+	case 1, 2:
+		base.Methods = nil
+	case 3:
+		base.Methods = []string{}
+	}
+	switch r.Intn(5) {
+	case 0:
+		base.Headers = c11Pick(r, [][]string{{"X-A", "X-B"}, {""}, {"", ""}, {"Content-Type"}})
+	}
+	switch r.Intn(5) {
+	case 0:
+		base.Expose = c11Pick(r, [][]string{{"X-E"}, {"X-E", "X-F"}, {""}, {"", ""}})
+	}
+	switch r.Intn(4) {
+	case 0:
+		base.MaxAge = c11Pick(r, []int{600, -1, 1, 86400, -600, 2147483647})
+	}
+	if r.Intn(2) == 0 {
+		base.Routes = c11Pick(r, [][]string{{"GET"}, {"GET", "POST"}, {"GET", "OPTIONS"}, {"PUT", "DELETE", "HEAD"}, {}, {"POST"}, {"OPTIONS"}})
+	}
+	if r.Intn(10) == 0 {
+		base.Pre = true
+	}
+}
+
+// per request: the parts that vary inside one configuration
+func c11GenRequest(r *rand.Rand, c *c11Case) {
+	if c.Skipper == 1 || r.Intn(40) == 0 {
+		c.Skip = r.Intn(3) == 0
+	}
+	switch r.Intn(12) {
+	case 0:
+		c.CtxKind, c.CtxAllow = 1, c11Pick(r, []string{"", "OPTIONS, GET", "X", "OPTIONS, GET, POST"})
+	case 1:
+		c.CtxKind = 2
+	}
+	switch r.Intn(6) {
+	case 0:
+		c.ReqHeaders = c11Pick(r, [][]string{{"X-Req, Content-Type"}, {"", "X"}, {"A", "B"}, {""}, {"x-custom"}})
+	}
+	if r.Intn(10) == 0 {
+		for k := 1 + r.Intn(2); k > 0; k-- {
+			o := c11Base(r).String()
+			if len(c.Allow) > 0 && r.Intn(2) == 0 {
+				if x := c11Fill(r, c11Pick(r, c.Allow), false); x != "" {
+					o = x
+				}
+			}
+			c.Before = append(c.Before, o)
+		}
+	}
 }
 
 // c11Fill instantiates the wildcards of an entry; with nearMiss one `?` is filled with zero or two characters
@@ -377,7 +810,25 @@ func c11Derive(r *rand.Rand, entry string) (string, string) {
 		host = inst[i+3:]
 	}
 	scheme := strings.TrimSuffix(inst, "://"+host)
-	switch r.Intn(20) {
+	switch r.Intn(21) {
+	case 19: // one byte replaced by another one
+		if len(inst) > 0 {
+			i := r.Intn(len(inst))
+			if r.Intn(2) == 0 {
+				// prefer a byte that is not plain ASCII, if there is one
+				for k := range inst {
+					if inst[k] >= 0x80 {
+						i = k
+						break
+					}
+				}
+			}
+			rc := c11Pick(r, []string{"x", ".", "a", "-", "0", "X"})
+			if string(inst[i]) == rc {
+				rc = "y"
+			}
+			return inst[:i] + rc + inst[i+1:], "char-replaced"
+		}
 	case 0, 1, 2:
 		return inst, "instance"
 	case 3:
@@ -463,14 +914,30 @@ func c11Gen(r *rand.Rand, tier string) []any {
 			}
 			allow = append(allow, c11Entry(r, b))
 		}
+		if r.Intn(40) == 0 {
+			// lists that hold nothing but blank entries (an unset variable split at commas, an empty yaml item)
+			allow = c11Pick(r, [][]string{{""}, {"", ""}, {"", "", ""}})
+		}
 		creds := r.Intn(3) == 0
-		unsafe := creds && r.Intn(3) == 0 || r.Intn(12) == 0
+		unsafe := creds && r.Intn(3) == 0 || r.Intn(8) == 0
+		cfgBase := &c11Case{Allow: allow, Creds: creds, Unsafe: unsafe}
+		c11GenConfig(r, cfgBase, allow)
+		// what the origins of this list are derived from: its entries, and the origins its AllowOriginFunc knows
+		derive := append([]string(nil), allow...)
+		if cfgBase.Func != nil {
+			derive = append(append(derive, cfgBase.Func.Allow...), cfgBase.Func.Err...)
+			if r.Intn(2) == 0 {
+				derive = append(append([]string(nil), cfgBase.Func.Allow...), cfgBase.Func.Err...)
+			}
+		}
 		for k := 0; k < per; k++ {
-			c := &c11Case{Allow: allow, Creds: creds, Unsafe: unsafe}
+			cc := *cfgBase
+			c := &cc
+			c11GenRequest(r, c)
 			c.Method = c11Pick(r, []string{"GET", "GET", "GET", "OPTIONS", "OPTIONS", "POST", "PUT", "HEAD"})
 			var o string
-			if len(allow) > 0 && r.Intn(10) != 0 {
-				o, c.Note = c11Derive(r, c11Pick(r, allow))
+			if len(derive) > 0 && r.Intn(10) != 0 {
+				o, c.Note = c11Derive(r, c11Pick(r, derive))
 			} else {
 				o, c.Note = c11Base(r).String(), "unrelated"
 			}
@@ -486,8 +953,33 @@ func c11Gen(r *rand.Rand, tier string) []any {
 			default:
 				c.Origin = []string{o}
 			}
+			if len(c.Before) > 0 && r.Intn(2) == 0 {
+				// earlier requests through the same instance that resemble this one
+				c.Before = nil
+				for k := 1 + r.Intn(2); k > 0; k-- {
+					switch r.Intn(4) {
+					case 0:
+						c.Before = append(c.Before, strings.ToLower(o))
+					case 1:
+						c.Before = append(c.Before, o)
+					case 2:
+						if i := strings.Index(o, "://"); i >= 0 {
+							c.Before = append(c.Before, o[:i+3]+"evil."+o[i+3:])
+						}
+					default:
+						if len(derive) > 0 {
+							if x := c11Fill(r, c11Pick(r, derive), false); x != "" {
+								c.Before = append(c.Before, x)
+							}
+						}
+					}
+				}
+			}
 			out = append(out, c)
 		}
+	}
+	for i := 0; i < nlists; i++ {
+		out = append(out, c11GenProbe(r))
 	}
 	return out
 }
@@ -529,6 +1021,76 @@ func c11Shrink(ci any) []any {
 		d.Method = "GET"
 		out = append(out, d)
 	}
+	simpler := func(f func(d *c11Case)) {
+		d := cp()
+		f(d)
+		out = append(out, d)
+	}
+	if c.Ctor != 0 {
+		simpler(func(d *c11Case) { d.Ctor = 0 })
+		// what CORS() ignores anyway
+		simpler(func(d *c11Case) {
+			d.Allow, d.Creds, d.Unsafe, d.Func, d.Skipper = nil, false, false, nil, 0
+			d.Methods, d.Headers, d.Expose, d.MaxAge = nil, nil, nil, 0
+		})
+	}
+	if c.Skipper != 0 {
+		simpler(func(d *c11Case) { d.Skipper = 0 })
+	}
+	if c.Skip {
+		simpler(func(d *c11Case) { d.Skip = false })
+	}
+	if c.Func != nil {
+		simpler(func(d *c11Case) { d.Func = nil })
+		if c.Func.ErrTrue {
+			simpler(func(d *c11Case) {
+				f := *c.Func
+				f.ErrTrue = false
+				d.Func = &f
+			})
+		}
+		for i := range c.Func.Allow {
+			simpler(func(d *c11Case) {
+				f := *c.Func
+				f.Allow = append(append([]string(nil), c.Func.Allow[:i]...), c.Func.Allow[i+1:]...)
+				d.Func = &f
+			})
+		}
+		for i := range c.Func.Err {
+			simpler(func(d *c11Case) {
+				f := *c.Func
+				f.Err = append(append([]string(nil), c.Func.Err[:i]...), c.Func.Err[i+1:]...)
+				d.Func = &f
+			})
+		}
+	}
+	if len(c.Methods) > 0 {
+		simpler(func(d *c11Case) { d.Methods = nil })
+	}
+	if len(c.Headers) > 0 {
+		simpler(func(d *c11Case) { d.Headers = nil })
+	}
+	if len(c.Expose) > 0 {
+		simpler(func(d *c11Case) { d.Expose = nil })
+	}
+	if c.MaxAge != 0 {
+		simpler(func(d *c11Case) { d.MaxAge = 0 })
+	}
+	if c.Routes != nil {
+		simpler(func(d *c11Case) { d.Routes = nil })
+	}
+	if c.CtxKind != 0 {
+		simpler(func(d *c11Case) { d.CtxKind, d.CtxAllow = 0, "" })
+	}
+	if len(c.ReqHeaders) > 0 {
+		simpler(func(d *c11Case) { d.ReqHeaders = nil })
+	}
+	if c.Pre {
+		simpler(func(d *c11Case) { d.Pre = false })
+	}
+	if len(c.Before) > 0 {
+		simpler(func(d *c11Case) { d.Before = nil })
+	}
 	// drop one character of the origin / of an entry (keeps "://")
 	if len(c.Origin) > 0 {
 		o := c.Origin[0]
@@ -558,12 +1120,12 @@ func c11Known(ci any, res Result, modelObs string) string { return "" }
 func init() {
 	register(&Prop{
 		ID:             "C11",
-		Rule:           "allow-lists of 0-5 entries built from base origins: literals, `*`, sub-domain wildcard, `*` label in the middle / at the end, partial-label `*`/`?`, several wildcards, wildcard in scheme / port, regexp metacharacters, degenerate entries; per list ~60 requests whose Origin is derived from one of ITS entries: instances (wildcards filled with labels, dotted runs, empty) and look-alikes (`?` filled with zero or two characters, suffix / prefix extension, left labels replaced, dot replaced, label inserted / dropped, other scheme, mangled `://`, hosts of 252-255 and origins of 260-262 bytes, the entry text itself, case change, char dropped / inserted, port, userinfo) x GET/POST/PUT/HEAD/OPTIONS x credentials / unsafe-wildcard flags; oracle decides Allowed with its own glob matcher (no regexp). Non-trivial = the allow-list has a wildcard pattern and the request has an Origin; distinct = distinct model op lines",
+		Rule:           "allow-lists of 0-5 entries built from base origins: literals, `*`, sub-domain wildcard, `*` label in the middle / at the end, partial-label `*`/`?`, several wildcards, wildcard in scheme / port, regexp metacharacters, degenerate entries, lists of nothing but blank entries, entries with bytes that are not UTF-8 (do not compile); per list ~60 requests whose Origin is derived from one of ITS entries (or of the origins its AllowOriginFunc knows): instances (wildcards filled with labels, dotted runs, empty) and look-alikes (`?` filled with zero or two characters, suffix / prefix extension, left labels replaced, dot replaced, label inserted / dropped, other scheme, mangled `://`, hosts of 252-255 and origins of 260-262 bytes, the entry text itself, case change, char dropped / inserted / replaced, port, userinfo) x GET/POST/PUT/HEAD/OPTIONS x credentials / unsafe-wildcard flags (all four combinations). Round 4, per list: CORS() vs CORSWithConfig, custom Skipper (skips requests carrying a marker header), AllowOriginFunc as a table (allow / refuse / error with (false|true, err)), AllowMethods / AllowHeaders / ExposeHeaders (nil, empty, blank items) / MaxAge (0, positive, negative), routes with or without an OPTIONS handler (router-provided Allow in the context), e.Use or e.Pre; per request: skip marker, a middleware in front that replaces the context's Allow value by a string / an empty string / a non-string, Access-Control-Request-Headers, 0-2 earlier requests through the same instance (unrelated or resembling this one); plus one probe per list deciding whether an entry of valid / truncated / overlong / surrogate / out-of-range UTF-8 compiled. Oracle decides Allowed with its own glob matcher (no regexp), AllowOriginFunc cases by its table and call log. Non-trivial = (the allow-list has a wildcard pattern or AllowOriginFunc is set) and the request has an Origin; distinct = distinct model op lines",
 		New:            func() any { return &c11Case{} },
 		Gen:            c11Gen,
 		Run:            c11Run,
 		Shrink:         c11Shrink,
 		Known:          c11Known,
-		Correspondence: "C11.serve (lean/EchoModel/C11.lean: glob, matchScheme, matchSubdomain, allowLoop) vs middleware.CORSWithConfig + matchSubdomain + regexp",
+		Correspondence: "C11.serveFull (lean/EchoModel/C11.lean: glob, validUtf8, matchScheme, matchSubdomain, allowLoop, decideOrigin, preflight / simple-request headers) vs middleware.CORS / CORSWithConfig + matchSubdomain + regexp",
 	})
 }
